@@ -88,6 +88,12 @@ func (fa *FA) atomFacts(s *Sym, depth int) []Fact {
 		}
 	case "cap":
 		out = append(out, le(linConst(0), a, "cap >= 0"))
+		// cap(append(s, t...)) >= len(s)+len(t); cap(x) >= len(x) in general
+		if x := s.Args[0]; depth < 2 {
+			if _, isSlice := x.T.Underlying().(*types.Slice); isSlice {
+				out = append(out, le(fa.linSym(lenOf(x), 0), a, "len <= cap"))
+			}
+		}
 	case "ext":
 		// results of standard library calls
 		call := s.Args[0]
